@@ -76,3 +76,32 @@ def replay_web(inputs, obl):
     if problems:
         return dict(confirmed=True, detail='; '.join(problems[:3]))
     return dict(confirmed=False, detail='every route reached its own handler once with the request parameters')
+
+
+def ws_message_kinds():
+    """the real path of a websocket message after decoding: klong['.ws.m'](connection, message) - for every JSON kind the handler body
+    must run exactly once (-> list of (kind, ok, detail))"""
+    import json
+    import warnings
+    warnings.simplefilter('ignore')
+    from klongpy import KlongInterpreter
+    out = []
+    kinds = [('null', 'null'), ('true', 'true'), ('false', 'false'), ('zero', '0'), ('int', '7'), ('real', '1.5'), ('empty-string', '""'),
+             ('string', '"s"'), ('empty-list', '[]'), ('list', '[1,2]'), ('empty-object', '{}'), ('object', '{"a":1}'), ('nested', '[null,{"b":[]}]')]
+    for name, text in kinds:
+        k = KlongInterpreter()
+        k('cnt::0')
+        k('.ws.m::{cnt::cnt+1;0}')
+        k('hh::{x;y;cnt::cnt+1;0}')
+        k['.ws.m'] = k['hh'].fn if hasattr(k['hh'], 'fn') else k['hh']
+        msg = json.loads(text)
+        try:
+            h = k['.ws.m']
+            h('conn', msg)
+            n = k('cnt')
+            ok = n == 1
+            detail = f"handler body ran {n} time(s) for the message {text}"
+        except Exception as e:
+            ok, detail = False, f"message {text}: handler call raised {type(e).__name__}: {str(e)[:80]}"
+        out.append((name, ok, detail))
+    return out
